@@ -110,6 +110,72 @@ pub async fn run_scripted(case: &Value, keep: bool) -> RunOut {
         thread_id = v["thread_id"].as_str().unwrap_or("").to_string();
     }
     let timeout_ms = get_u64(case, "timeout_ms").unwrap_or(15000);
+    // ---- scenario set-up steps (before the scripted inputs)
+    let mut pre_log = Vec::new();
+    for step in case.get("pre").and_then(|p| p.as_array()).cloned().unwrap_or_default() {
+        match step["do"].as_str().unwrap_or("") {
+            "post_message_wait" => {
+                let r = client
+                    .post(format!("{base}/threads/{thread_id}/messages"))
+                    .json(&json!({"content": step["content"].as_str().unwrap_or("pre")}))
+                    .send()
+                    .await;
+                if let Ok(resp) = r {
+                    let v: Value = resp.json().await.unwrap_or(Value::Null);
+                    let sid = v["session_id"].as_str().unwrap_or("").to_string();
+                    wait_run_end(&data, &sid, Some(&thread_id), timeout_ms).await;
+                    sessions.push(sid);
+                }
+            }
+            "checkpoint_last_message" => {
+                let mid = frames_of(&data, &thread_id)
+                    .iter()
+                    .rev()
+                    .find(|f| f["type"] == "continuity_message_appended")
+                    .and_then(|f| f["id"].as_str().map(str::to_string))
+                    .unwrap_or_default();
+                let r = client
+                    .post(format!("{base}/threads/{thread_id}/compaction-checkpoint"))
+                    .json(&json!({"summary_markdown": "pre summary", "to_message_id": mid}))
+                    .send()
+                    .await;
+                pre_log.push(json!({"checkpoint": r.map(|x| x.status().as_u16()).unwrap_or(0)}));
+            }
+            "delete_artifacts" => {
+                let dir = ws.join(".rip/artifacts/blobs");
+                for e in std::fs::read_dir(&dir).into_iter().flatten().flatten() {
+                    let _ = std::fs::remove_file(e.path());
+                }
+            }
+            "break_artifacts_dir" => {
+                let dir = ws.join(".rip/artifacts/blobs");
+                let _ = std::fs::remove_dir_all(&dir);
+                let _ = std::fs::create_dir_all(ws.join(".rip/artifacts"));
+                let _ = std::fs::write(&dir, b"not a directory");
+            }
+            "auto" | "schedule" => {
+                let path = if step["do"] == "auto" { "compaction-auto" } else { "compaction-auto-schedule" };
+                let r = client
+                    .post(format!("{base}/threads/{thread_id}/{path}"))
+                    .json(&json!({"stride_messages": 1, "max_new_checkpoints": 2, "actor_id": "user", "origin": "verif"}))
+                    .send()
+                    .await;
+                pre_log.push(json!({"compaction": r.map(|x| x.status().as_u16()).unwrap_or(0)}));
+                // the job body runs in the background: wait until every spawned job has ended (or 3 s)
+                for _ in 0..300 {
+                    let tf = frames_of(&data, &thread_id);
+                    let sp = tf.iter().filter(|f| f["type"] == "continuity_job_spawned").count();
+                    let en = tf.iter().filter(|f| f["type"] == "continuity_job_ended").map(|f| f["job_id"].clone()).collect::<std::collections::HashSet<_>>().len();
+                    if en >= sp {
+                        break;
+                    }
+                    tokio::time::sleep(Duration::from_millis(10)).await;
+                }
+                tokio::time::sleep(Duration::from_millis(60)).await;
+            }
+            _ => {}
+        }
+    }
     let mut pending = Vec::new();
     for input in &inputs {
         let client = client.clone();
@@ -191,8 +257,12 @@ pub async fn run_scripted(case: &Value, keep: bool) -> RunOut {
             ws_files.insert(k, v);
         }
     }
+    let order: Vec<Value> = all_frames(&data)
+        .iter()
+        .map(|f| json!([f["stream_id"], f["type"], f["seq"]]))
+        .collect();
     let result = json!({
-        "id": case["id"], "sessions": sessions, "thread_id": thread_id, "http": http,
+        "id": case["id"], "sessions": sessions, "thread_id": thread_id, "http": http, "order": order, "pre_log": pre_log,
         "session_frames": session_frames, "thread_frames": thread_frames,
         "requests": requests, "ws_files": ws_files, "timed_out": timed_out, "doctor": doctor,
     });
